@@ -29,12 +29,12 @@ HOWS = ['default-open', 'create-r', 'assign', 'r-r+-r', 'after-r+block', 'reassi
 MUTS = {'Array': ['setitem', 'append', 'iterappend', 'truncate', 'delete', 'md.update', 'md.setitem', 'md.pop', 'md.popdefault', 'md.popitem', 'md.del'],
         'Ragged': ['append', 'append0', 'iterappend', 'truncate', 'delete', 'md.update', 'md.setitem', 'md.pop', 'md.popdefault', 'md.popitem', 'md.del']}
 MUST_HIT = [f'how:{h}' for h in HOWS] + [f'Array:{s}' for s in KINDS['Array']] + [f'Ragged:{s}' for s in KINDS['Ragged']] + \
-           ['meta:yes', 'meta:no', 'pre-history']
+           ['meta:yes', 'meta:no', 'meta:single-key', 'pre-history']
 
 
 def _create(kind, state, meta, path, mode):
     import darr
-    md = {'k1': 1, 'k2': [1, 2]} if meta else None
+    md = ({'k1': 1} if meta == 'one' else {'k1': 1, 'k2': [1, 2]}) if meta else None     # 'one': the mutator removes the last key
     if kind == 'Array':
         if state == 'empty':
             return darr.create_array(path, shape=(0,), dtype='int32', accessmode=mode, metadata=md, chunklen=1)
@@ -98,9 +98,10 @@ def _mutator(kind, state, meta, mut):
     if mut == 'md.popdefault':
         return (lambda h: h.metadata.pop('k1', None), lambda h, p: None if 'k1' not in h.metadata else 'still there', True)
     if mut == 'md.popitem':
-        return (lambda h: h.metadata.popitem(), lambda h, p: None if len(h.metadata) == 1 else 'len', bool(meta))
+        return (lambda h: h.metadata.popitem(), lambda h, p: None if len(h.metadata) == (0 if meta == 'one' else 1) else 'len', bool(meta))
     if mut == 'md.del':
-        return (lambda h: h.metadata.__delitem__('k2'), lambda h, p: None if 'k2' not in h.metadata else 'still there', bool(meta))
+        dk = 'k1' if meta == 'one' else 'k2'
+        return (lambda h: h.metadata.__delitem__(dk), lambda h, p: None if dk not in h.metadata else 'still there', bool(meta))
     raise ValueError((kind, mut))
 
 
@@ -108,6 +109,8 @@ def execute(ctx, spec):
     out = Outcome()
     kind, state, meta, how, mut = spec['kind'], spec['state'], spec['meta'], spec['how'], spec['mut']
     out.cls(f'how:{how}', f'{kind}:{state}', 'meta:yes' if meta else 'meta:no')
+    if meta == 'one':
+        out.cls('meta:single-key')
     tag = f'{kind}:{state}:{mut}'
     with ctx.scratch() as d:
         path = os.path.join(d, 'x.darr')
@@ -255,14 +258,14 @@ def _pre(out, kind, state, h, pre):
 
 def matrix():
     for kind in KINDS:
-        for state, meta, how, mut in itertools.product(KINDS[kind], (False, True), HOWS, MUTS[kind]):
+        for state, meta, how, mut in itertools.product(KINDS[kind], (False, True, 'one'), HOWS, MUTS[kind]):
             yield {'kind': kind, 'state': state, 'meta': meta, 'how': how, 'mut': mut}
 
 
 @st.composite
 def st_cell(draw):
     kind = draw(st.sampled_from(sorted(KINDS)))
-    return {'kind': kind, 'state': draw(st.sampled_from(KINDS[kind])), 'meta': draw(st.booleans()),
+    return {'kind': kind, 'state': draw(st.sampled_from(KINDS[kind])), 'meta': draw(st.sampled_from([False, True, 'one'])),
             'how': draw(st.sampled_from(['assign', 'r-r+-r', 'default-open'])), 'mut': draw(st.sampled_from(MUTS[kind])),
             'pre': draw(st.lists(st.sampled_from(['r', 'r+', 'append', 'read', 'meta']), min_size=1, max_size=6))}
 
